@@ -1,6 +1,7 @@
 mod backend;
 mod codec;
 mod gen;
+mod reftree;
 mod rng;
 mod sim;
 mod watchdog;
@@ -69,6 +70,8 @@ fn main() {
         "events" => { finish(&out, gen::event_histories(seed, n, arg("--maxops", "25").parse().unwrap())); }
         "readonly" => { finish(&out, gen::readonly_histories(seed, n, arg("--maxops", "8").parse().unwrap(), arg("--crash", "0") == "1")); }
         "backends" => { finish(&out, gen::backend_sequences(seed, n)); }
+        "faults" => { finish(&out, gen::fault_histories(seed, n, arg("--maxops", "8").parse().unwrap())); }
+        "tree" => { finish(&out, gen::tree_histories(seed, n, arg("--maxlen", "70").parse().unwrap())); }
         "repl" => {
             let maxlen: u64 = arg("--maxlen", "20").parse().unwrap();
             let mode = match arg("--mode", "log").as_str() { "crash" => gen::Mode::Crash, "torn" => gen::Mode::Torn, _ => gen::Mode::Log };
